@@ -91,7 +91,7 @@ fn real_main() {
         }
         "dispatch" => fam_dispatch::run(&mut out, args.seed),
         "contend" => fam_dispatch::run_n(&mut out, args.seed, if args.thorough { 400 } else { 60 }),
-        "c11big" => fam_gen::run_c11big(&mut out, &mut rng, only, !args.extra.iter().any(|x| x == "--no-giant"), !args.extra.iter().any(|x| x == "--only-giant")),
+        "c11big" => fam_gen::run_c11big(&mut out, &mut rng, only, !args.extra.iter().any(|x| x == "--no-giant" || x == "--only-blocks"), !args.extra.iter().any(|x| x == "--only-giant" || x == "--only-blocks")),
         "misc" => fam_misc::run(&mut out, &mut rng, args.thorough),
         "agg" => fam_gen::run_agg(&mut out, &mut rng, args.thorough, only),
         "c02" => fam_dist::run_c02(&mut out, &mut rng, args.thorough, only),
@@ -107,6 +107,8 @@ fn real_main() {
         "c12" => fam_stream::run_c12(&mut out, &mut rng, args.thorough, only, !args.extra.iter().any(|x| x == "--no-interrupts")),
         #[cfg(all(feature = "easy", feature = "std"))]
         "c12big" => fam_stream::run_c12big(&mut out, &mut rng, only, args.thorough),
+        #[cfg(all(feature = "easy", feature = "std"))]
+        "bigfile" => fam_stream::run_bigfile(&mut out, &mut rng, only, args.thorough),
         #[cfg(all(feature = "easy", feature = "std"))]
         "misreport" => fam_stream::run_misreport(&mut out, &mut rng, only),
         #[cfg(feature = "serde")]
